@@ -40,6 +40,7 @@ REVERTS = [
     ('F40-critical-experimental-subpacket', '70b60a0', {'C15': ['S15-6:critical-unknown-covers-opaque-types']}),
     ('F41-inline-hash-strength', 'dc56f4e', {'C15': ['S15-8:hash-strength:composed::message::types::Message']}),
     ('F42-ring-cross-group', '1f13ec7', {'C18': ['ring:cross-group-consistency']}),
+    ('F43-signed-many-slot-misalignment', '01487b1', {'C02': ['S02-9:slots-pushed-in-pairs']}),
     ('F23-boolean-subpackets', '1b5ba7a', {'C05': ['S05-8:lossless-bool'], 'C02': ['S05-8:lossless-bool']}),
 ]
 tests = [dict(name='revert:' + n, kind='revert-fix', commit=c, expect=e) for n, c, e in REVERTS]
